@@ -817,6 +817,27 @@ def PosInjective (hashV : Nat → Nat → Nat) (nodes : List Nat) (vnodes : Nat)
 instance (hashV : Nat → Nat → Nat) (nodes : List Nat) (vnodes : Nat) :
     Decidable (PosInjective hashV nodes vnodes) := by unfold PosInjective; infer_instance
 
+/-- with a collision-free byte hash the positions `hash_virtual_node` computes are pairwise
+    distinct for ANY membership: `(u64 id, u32 index)` is a fixed-width, hence injective, stream -/
+theorem posInjective_vnodePos {sip : List Nat → Nat} (hs : ∀ a b, sip a = sip b → a = b)
+    (nodes : List Nat) (vnodes : Nat) : PosInjective (vnodePos sip) nodes vnodes := by
+  intro a _ b _ i _ j _ h
+  have h1 := hs _ _ h
+  have e8 : ∀ n, (HB.le64 n).length = 8 := fun _ => rfl
+  obtain ⟨h2, h3⟩ := List.append_inj h1 (by rw [e8, e8])
+  have inj : ∀ w (x y : Nat), HB.leBytes (w + 1) x = HB.leBytes (w + 1) y → x = y := by
+    intro w
+    induction w with
+    | zero => intro x y hxy; simpa [HB.leBytes] using hxy
+    | succ w ih =>
+      intro x y hxy
+      simp only [HB.leBytes, List.cons.injEq] at hxy
+      have := ih _ _ hxy.2
+      have ex := Nat.div_add_mod x 256
+      have ey := Nat.div_add_mod y 256
+      omega
+  exact ⟨inj 7 a b h2, inj 3 i j h3⟩
+
 theorem ring_eq_of_same_members {hashV : Nat → Nat → Nat} {r₁ r₂ : HashRing}
     (h1 : Reachable hashV r₁) (h2 : Reachable hashV r₂) (hv : r₁.vnodes = r₂.vnodes)
     (hm : ∀ y, y ∈ r₁.phys ↔ y ∈ r₂.phys) (hinj : PosInjective hashV r₁.phys r₁.vnodes) :
